@@ -147,8 +147,22 @@ func (p *c19) RunCase(ctx *runner.Ctx) runner.CaseResult {
 			}
 		}
 		op := adapt.Op{Kind: adapt.OpBatchWrite, Batch: batch}
+		if r.Intn(5) == 0 {
+			// the caller's context is already done (cancelled, or its deadline has passed): the library may ignore
+			// contexts - then the batch is what it always is - or report the cancellation and apply nothing; it may
+			// not report success for requests it did not perform
+			op.DoneCtx = mon.Pick(r, []string{"cancelled", "expired"})
+			x.r.Counters["batches_with_a_done_context"]++
+		}
 		ctx.Trace("%s %s", adapter, op.String())
 		got := cl.Do(op)
+		if op.DoneCtx != "" && got.Class == adapt.ClsCancelled {
+			x.r.Counters["batches_refused_for_their_context"]++
+			if ds := mon.Observe(cl, m, keys, nil); len(ds) > 0 {
+				x.viol("refused-batch-left-trace", "batchwrite/"+op.DoneCtx, fmt.Sprintf("[%s] BatchWriteItem reported that its context is done but changed the tables: %s", adapter, ds[0].Detail), map[string]interface{}{"adapter": adapter, "specs": specs, "history": hist, "batch": op, "outcome": got})
+			}
+			return x.r
+		}
 		x.r.Evals += st.Calls + 1 + len(batch)
 		x.fp(len(batch) >= 2 && present > 0 && absent > 0, "%s|write|t%d|n%d|p%d|d%d|pr%d", adapter, len(specs), len(batch), puts, dels, present)
 		wit := map[string]interface{}{"adapter": adapter, "specs": specs, "history": hist, "batch": op, "outcome": got}
@@ -223,8 +237,16 @@ func (p *c19) RunCase(ctx *runner.Ctx) runner.CaseResult {
 		gets = append(gets, adapt.BatchEntry{Table: s.Name, Del: key})
 	}
 	op := adapt.Op{Kind: adapt.OpBatchGet, Gets: gets}
+	if r.Intn(5) == 0 {
+		op.DoneCtx = mon.Pick(r, []string{"cancelled", "expired"})
+		x.r.Counters["batches_with_a_done_context"]++
+	}
 	ctx.Trace("%s %s", adapter, op.String())
 	got := cl.Do(op)
+	if op.DoneCtx != "" && got.Class == adapt.ClsCancelled {
+		x.r.Counters["batches_refused_for_their_context"]++
+		return x.r
+	}
 	x.r.Evals += st.Calls + 1 + len(gets)
 	want := map[string][]val.Item{}
 	for _, g := range gets {
